@@ -3,6 +3,7 @@ CONSTANTS
   HostSeq <- TwoHosts
   Entries <- @@ENTRIES@@
   MaxReqs = @@MAXREQS@@
+  Vias <- @@VIAS@@
   MaxScript = @@MAXSCRIPT@@
 INVARIANT Inv
 INVARIANT Emit
